@@ -64,3 +64,24 @@ Proof. exact softmax_shift_invariant. Qed.
 (* the hypotheses are satisfiable: x = 1, k = 1 (1 * LOG2_E = 1.4427, within 0.5 of 1) *)
 Example C19_nonvacuous : Rabs 1 <= exp_cutoff /\ near (1 * inv_log2) (IZR 1).
 Proof. exact nonvacuous_exp. Qed.
+
+(* The thirteen method-error theorems above (and the non-vacuity example) as ONE obligation: reading back
+   `Print Assumptions` walks the whole Coquelicot/Flocq/Interval dependency graph, which costs seconds per
+   theorem; the check reads it once for this conjunction.  Each conjunct is literally the statement of the
+   named theorem. *)
+Theorem C19_method_errors :
+  ltac:(let t := type of C19_exp_poly_abs in exact t) /\
+  ltac:(let t := type of C19_exp_poly_rel in exact t) /\
+  ltac:(let t := type of C19_ln2_split in exact t) /\
+  ltac:(let t := type of C19_inv_ln2 in exact t) /\
+  ltac:(let t := type of C19_exp_range_reduction in exact t) /\
+  ltac:(let t := type of C19_exp_method_error in exact t) /\
+  ltac:(let t := type of C19_tanh_poly in exact t) /\
+  ltac:(let t := type of C19_tanh_tiny in exact t) /\
+  ltac:(let t := type of C19_tanh_saturation in exact t) /\
+  ltac:(let t := type of C19_sin_rational in exact t) /\
+  ltac:(let t := type of C19_two_pi_split in exact t) /\
+  ltac:(let t := type of C19_sin_range_reduction in exact t) /\
+  ltac:(let t := type of C19_erf_coeff_sum in exact t) /\
+  ltac:(let t := type of C19_nonvacuous in exact t).
+Proof. split; [exact C19_exp_poly_abs|split; [exact C19_exp_poly_rel|split; [exact C19_ln2_split|split; [exact C19_inv_ln2|split; [exact C19_exp_range_reduction|split; [exact C19_exp_method_error|split; [exact C19_tanh_poly|split; [exact C19_tanh_tiny|split; [exact C19_tanh_saturation|split; [exact C19_sin_rational|split; [exact C19_two_pi_split|split; [exact C19_sin_range_reduction|split; [exact C19_erf_coeff_sum|exact C19_nonvacuous]]]]]]]]]]]]]. Qed.
